@@ -1,6 +1,6 @@
 """C07 every accepted program compiles to SQL the selected dialect parses and binds."""
 import itertools, json, random, re
-import vlib, relgen, relcheck, corpus, starexpand, sqlite3, anchortrace
+import vlib, relgen, relcheck, corpus, starexpand, sqlite3, anchortrace, ctetrace
 from vlib import vh_batch, drv_batch
 from props.c01 import SAFE, FULL, UNDECL, RICH
 
@@ -14,7 +14,12 @@ MANIFEST = dict(
          "part, a kept compute whose own reads - window partition / order included - are required again, or a `missing` column), "
          "missing_provided_by_preceding (the sub-query defines and selects exactly what the outer SELECT needs from it), "
          "anchored_block_closed (after the redirect the atomic pipeline has no external column at all: no reference to a column that only "
-         "exists inside the sub-query), for pipelines of any length and any numbering of the fresh ids. Ties: every call of extract_atomic "
+         "exists inside the sub-query), preceding_is_wellformed (the hypothesis is inherited by every level of the recursion over sub-queries), "
+         "for pipelines of any length and any numbering of the fresh ids; (iii) on the mirror of compile_relation_instance (Model.CteOrder): "
+         "table_refs_are_defined_earlier (for every ranked structure of relation bodies, any prefer_cte / allow_ctes flags and any nesting of "
+         "sub-queries and CTEs, a relation is referenced by name only if it is a database table or a CTE already pushed to the WITH list - "
+         "hence defined earlier than the CTE containing the reference). Ties: the recorded nesting of every compilation is replayed through "
+         "Model.CteOrder (reference by name / sub-query / CTE pushed, in order); every call of extract_atomic "
          "made while compiling the corpus is recorded (cargo feature verif) and replayed through the Lean mirror - rest / missing / "
          "Select / kept transforms / fresh ids / redirected pipeline must agree exactly - and the executable scope predicates are "
          "evaluated on those real pipelines; the clause mirror is compared with the "
@@ -27,8 +32,8 @@ MANIFEST = dict(
          "non-executable dialects the claim is 'parses', binding is checked on SQLite only. The scope theorems speak about the "
          "requirement bookkeeping of the splitter (what get_requirements declares as read); that gen_query prints nothing else is "
          "covered by the SQLite bind run, and the ORDER BY that postprocess derives from a take's embedded sort is outside the theorem "
-         "(listed finding orderby-column-out-of-scope lives there). Preprocess (distinct / set-operation recognition / reorder), "
-         "CTE naming and the recursion over nested relations are not mirrored.",
+         "(listed finding orderby-column-out-of-scope lives there). Preprocess (distinct / set-operation recognition), compile_loop and "
+         "CTE naming are not mirrored; the bodies of the relations (which references a compilation makes) are taken from the recording.",
     technique="Lean 4 proofs: scope invariant of the mirrored pipeline splitter (induction over the back-to-front scan) + dialect clause rules over regenerated flags; "
               "replay of every recorded split through the mirror; per-dialect parse / SQLite bind run", ref="4/C07")
 
@@ -144,7 +149,8 @@ def classify_text(prql, sql, err, dialect):
 def run(ctx):
     br = vlib.standard_proof_obligations(ctx, ["PrqlModel.Props.C07"], ["Dialects"],
         required_theorems=["fetch_needs_offset_and_order", "limit_xor_fetch", "fetch_dialects", "clauses_select_range", "takes_emitted_correctly",
-                            "split_scope_closed", "missing_provided_by_preceding", "anchored_block_closed", "split_closed_monitor"])
+                            "split_scope_closed", "missing_provided_by_preceding", "anchored_block_closed", "split_closed_monitor",
+                            "preceding_is_wellformed", "table_refs_are_defined_earlier"])
     ctx.rule = ("(i) take chains x {sorted, unsorted} x 12 dialects: LIMIT/OFFSET/FETCH/ORDER BY filler of the real SQL vs the Lean clause "
                 "mirror; (ii) every accepted program of the corpus x 12 dialects parsed with sqlparser's dialect grammar (one statement); "
                 "(iii) generated relational programs executed on SQLite (sqlite and generic targets); a case = (program, dialect); "
@@ -304,6 +310,9 @@ def run(ctx):
     if hooked:
         ctx.obligation("correspondence: split_off_back / anchor_split = Model.Anchor.splitOffBack / anchorSplit on every recorded call of extract_atomic; "
                        "every well-formed real pipeline is scope-closed", n_bad == 0 and n_ev > 0, f"{n_ev} recorded calls replayed, {n_bad} differ")
+        n_c, n_cbad, _ = ctetrace.run_suite(ctx, trace_progs, "ctes", targets=("sql.sqlite", "sql.postgres"))
+        ctx.obligation("correspondence: compile_relation_instance (by name / sub-query / CTE, order of the WITH list) = Model.CteOrder.compileMain on the "
+                       "recorded nesting of every compilation", n_cbad == 0 and n_c > 0, f"{n_c} compilations replayed, {n_cbad} differ")
     else:
         ctx.count("anchor:skipped (tree has no `verif` hooks)")
         ctx.assumptions.append("the split trace hook is not available in this tree: the splitter mirror was not compared this run")
